@@ -64,6 +64,26 @@ void h_dispatch(void) { bool ok; WasmOpcode opc = wasmOpcodeNop; size_t len0;
       OBL(X_MATCHED, "return: writes  s<R>0 = s<T0><h-1>; goto L<function label>;  from any nesting depth and stack height (the result travels to slot 0)");
       OBL(ts.length == H0 && w.ignore, "return: the rest of the body is unreachable and leaves the stack alone");
       OBL(decl.valueTypes[0] == (WasmValueType)(BR_OLDD | (1u << r)), "return: the result variable (slot 0, result type) is declared"); }
+#elif DISP == 6 || DISP == 7 || DISP == 8 || DISP == 9
+    /* prefixed instructions (0xFC bulk memory, 0xFE threads) in unreachable code, the sub-opcode in a PADDED LEB128 encoding, on an EMPTY
+     * operand stack: accepted, immediates consumed, nothing written, no operand looked up */
+    setup(0); ASSUME(H0 == 0); memset(&g_mod, 0, sizeof g_mod); w.module = &g_mod; w.ignore = true;
+    { static U8 c2[12]; unsigned n = 0;
+#if DISP == 6        /* memory.fill: FC 0B -> FC 8B 00 ; memory index 0 */
+      c2[n++] = 0xFC; c2[n++] = 0x8B; c2[n++] = 0x00; c2[n++] = 0x00;
+#elif DISP == 7      /* memory.copy: FC 0A -> FC 8A 80 00 ; memory indices 0 0 */
+      c2[n++] = 0xFC; c2[n++] = 0x8A; c2[n++] = 0x80; c2[n++] = 0x00; c2[n++] = 0x00; c2[n++] = 0x00;
+#elif DISP == 8      /* memory.init: FC 08 -> FC 88 00 ; segment 1, memory 0 */
+      c2[n++] = 0xFC; c2[n++] = 0x88; c2[n++] = 0x00; c2[n++] = 0x01; c2[n++] = 0x00;
+#else                /* i32.atomic.load: FE 10 -> FE 90 00 ; align 2, offset 0x0B */
+      c2[n++] = 0xFE; c2[n++] = 0x90; c2[n++] = 0x00; c2[n++] = 0x02; c2[n++] = 0x0B;
+#endif
+      c2[n++] = 0x0B; g_codebuf.data = c2; g_codebuf.length = n; w.code = &g_codebuf; }
+    ok = wasmCWriteFunctionCode(&w, &opc);
+    OBL(ok, "dead prefixed instruction: accepted with a padded sub-opcode and on an empty operand stack");
+    ASSUME(ok);
+    OBL(opc == wasmOpcodeEnd && g_codebuf.length == 0, "dead prefixed instruction: sub-opcode and immediates consumed exactly, translation stops at `end`");
+    OBL(g_sb_n == 0 && ts.length == 0 && w.ignore, "dead prefixed instruction: nothing is written, the stack is not touched");
 #endif
     (void)len0;
     CANARY("dispatch"); }
